@@ -228,7 +228,22 @@ def narrow_parameter_copy_stream(ctx):
         ctx.case_done(None, ('narrow-params', it))
 
 
+def listed_finding_k5(ctx):
+    """The minimal input of K5 (known_findings.json), run on every run."""
+    from astrodendro import Dendrogram
+    try:
+        a = Dendrogram.compute(np.array([3., 1., 2.]), min_value=0, min_delta=0)
+        b = Dendrogram.compute(np.array([3., 1., 2.]), min_value=0, min_delta=3)
+        if bool(a == b) and sorted(np.unique(a.index_map).tolist()) != sorted(np.unique(b.index_map).tolist()):
+            ctx.oracle_failure({'stream': 'listed findings', 'finding': 'K5', 'data': [3, 1, 2], 'min_value': 0, 'a': {'min_delta': 0}, 'b': {'min_delta': 3}},
+                               ['compare equal although the pixels are partitioned into different structures'], {'only_partition_differs': True})
+    except Exception as e:
+        ctx.oracle_failure({'stream': 'listed findings', 'finding': 'K5'}, ['raised %r' % (e,)], {})
+    ctx.case_done(None, ('listed', 'K5'))
+
+
 def explore(ctx):
+    listed_finding_k5(ctx)
     mixed_dtype_stream(ctx)
     from . import compute_common as cc_
     cc_.rounding_tie(ctx, 400 if ctx.quick else 4000, 'c20_rounding')
